@@ -15,7 +15,7 @@ from harness import vcore, vscen, vskel
 from vlib import core
 
 PROPS = ["Props/C07.v"]
-BAD = ("expired", "unsigned", "edited", "wrong_signer", "sig_nibble")
+BAD = ("expired", "unsigned", "edited", "wrong_signer", "sig_nibble", "foreign_type")
 
 INSP = {"insp_fail": True, "insp_counts": [0, 1, 2, 2, 3, 3]}
 OPT_SETS = [
